@@ -262,7 +262,10 @@ func vOracle(t testing.TB, files map[backend.Handle][]byte, password string, wan
 	}
 	e := newVEnv(t, st)
 	e.gopts.Password = password
-	if err, out := e.check(true); err != nil {
+	if vOracleSkipCheck {
+		// environment-damaged history: `check` fails already before the command under test ran;
+		// only restorability of the snapshots is judged
+	} else if err, out := e.check(true); err != nil {
 		fails = append(fails, fmt.Sprintf("check --read-data failed: %v :: %s", err, vTail(out, 600)))
 	}
 	repo, err := e.open()
